@@ -757,6 +757,32 @@ pub fn seed_names(g: G) -> SecSet {
     s
 }
 
+/// Ill-formed .debug_cu_index whose hash table has no unused slot although unit_count <
+/// slot_count (2 slots, both occupied, unit_count 1): a probe for an absent id never meets
+/// an empty slot, so `UnitIndex::find` must bound its probe sequence itself.
+pub fn seed_index_full(g: G, v2: bool) -> SecSet {
+    let mut s = SecSet::default();
+    let mut b = e(g);
+    if v2 {
+        b.u32(2);
+    } else {
+        b.u16(5).u16(0);
+    }
+    b.u32(1).u32(1).u32(2);
+    for id in [0x0102_0304_0506_0702u64, 0x0102_0304_0506_0703] {
+        b.u64(id);
+    }
+    for idx in [1u32, 1] {
+        b.u32(idx);
+    }
+    b.u32(1);
+    b.u32(0);
+    b.u32(0x40);
+    s.cu_index = b.buf.clone();
+    s.tu_index = b.buf;
+    s
+}
+
 /// .debug_cu_index v5 (and v2 layout when `v2`), 4 slots, 2 units, 3 section kinds.
 pub fn seed_index(g: G, v2: bool) -> SecSet {
     let mut s = SecSet::default();
@@ -982,6 +1008,8 @@ pub fn seeds() -> Vec<SeedDef> {
         SeedDef { name: "names", primary: 15, gen: seed_names },
         SeedDef { name: "cu_index-v5", primary: 17, gen: |g| seed_index(g, false) },
         SeedDef { name: "cu_index-v2", primary: 17, gen: |g| seed_index(g, true) },
+        SeedDef { name: "cu_index-v5-full-table", primary: 17, gen: |g| seed_index_full(g, false) },
+        SeedDef { name: "cu_index-v2-full-table", primary: 17, gen: |g| seed_index_full(g, true) },
         SeedDef { name: "debug_frame-v1", primary: 19, gen: |g| seed_debug_frame(g, 1) },
         SeedDef { name: "debug_frame-v4", primary: 19, gen: |g| seed_debug_frame(g, 4) },
         SeedDef { name: "eh_frame-plain", primary: 20, gen: |g| seed_eh_frame(g, 0) },
